@@ -15,11 +15,15 @@ def fs_effects(ctx, job):
     decoys = ["s000000000x.c", "d000000001_.c", "s00000000001.c", "s000000000.c", "x0000000000.c", "S0000000000.c", "s0000000000.h", "s0000000000.cc", "notes.c", "d12345678a0.c",
               "s0000000007.c", "d0000000042.c", "sa000000000.c", "keep.txt"]
     scen = [("plain", ["out/mod.c"], []), ("nested_dot_dir", ["out.v1/sub/mod"], []), ("clean", ["out/mod.c"], ["-c"]), ("clean_files", ["out/mod.c"], ["-c", "-f", "2"]),
-            ("gnuld", ["out/mod.c"], ["-d", "gnu-ld"]), ("pm", ["out/m.x.c"], ["-p", "-m"])]
+            ("gnuld", ["out/mod.c"], ["-d", "gnu-ld"]), ("pm", ["out/m.x.c"], ["-p", "-m"]),
+            # the output directory does not exist: the run fails, and the decoys (here placed in the STARTING directory) are neither overwritten nor deleted
+            ("missing_dir", ["nodir/mod.c"], ["-c", "-f", "2"])]
     for name, (outp,), opts in [(a, b, c) for a, b, c in scen]:
         root = os.path.dirname(ctx.path("fs", name, "x"))
-        od = os.path.join(root, os.path.dirname(outp))
+        od = os.path.join(root, os.path.dirname(outp)) if name != "missing_dir" else root
         os.makedirs(od, exist_ok=True)
+        if name == "missing_dir":
+            open(os.path.join(root, "mod.c"), "w").write("precious"); open(os.path.join(root, "mod.h"), "w").write("precious"); open(os.path.join(root, "datasegments"), "w").write("precious")
         for dname in decoys:
             open(os.path.join(od, dname), "w").write("decoy " + dname)
         open(os.path.join(root, "in.wasm"), "wb").write(wasm_bytes)
@@ -44,6 +48,10 @@ def fs_effects(ctx, job):
         okc = all(allowed_new(k) for k in created)
         may_delete = lambda rel: "-c" in opts and os.path.dirname(rel) == os.path.dirname(outp) and re.match(r"^[sd]\d{10}\.c$", os.path.basename(rel))
         okd = all(may_delete(k) for k in deleted) and ("-c" not in opts or all((k in deleted or k in created) for k in before if may_delete(k)))
+        if name == "missing_dir":
+            facts.append(("scenario missing_dir (%s %s): the run fails with a non-zero status" % (" ".join(opts), outp), r.returncode != 0, r.stderr.decode(errors="replace")[-200:]))
+            facts.append(("scenario missing_dir: nothing at all is created, overwritten or deleted (in particular not in the starting directory)", not created and not deleted, "changed=%s deleted=%s" % (sorted(created), sorted(deleted))))
+            continue
         facts.append(("scenario %s (%s %s): exit status 0" % (name, " ".join(opts), outp), r.returncode == 0, r.stderr.decode(errors="replace")[-200:]))
         facts.append(("scenario %s: only the output file, its header, s/d########## .c files and 'datasegments' inside the output directory are created or overwritten" % name, okc, "changed=%s" % sorted(created)))
         facts.append(("scenario %s: %s" % (name, "exactly the files matching the implementation-file pattern are deleted" if "-c" in opts else "nothing is deleted"), okd, "deleted=%s" % sorted(deleted)))
@@ -63,7 +71,7 @@ def make_jobs(ctx):
     ]
     for j in jobs:
         j.defines = [d for d in j.defines if not (d.startswith("HAS_LIBGEN=1") and "HAS_LIBGEN=0" in j.defines)]
-    b = Job("B.fs_effects", src=None, solver="static", funcs=["w2c2 binary: main + c.c file effects"], bounded="6 scenarios x 14 decoy names (directory snapshot before/after on the real binary)",
+    b = Job("B.fs_effects", src=None, solver="static", funcs=["w2c2 binary: main + c.c file effects"], bounded="7 scenarios x 14 decoy names (directory snapshot before/after on the real binary)",
             info=dict(layer="bounded corroboration on the real binary"))
     b.static_fn = fs_effects
     jobs.append(b)
